@@ -3,7 +3,6 @@ package main
 import (
 	"encoding/json"
 	"fmt"
-	"go/types"
 	"os"
 	"sort"
 	"strings"
@@ -122,22 +121,7 @@ func (v *Verifier) VerifyFunc(fc *FuncContract) {
 		fmt.Sscanf(fc.Options["unroll"], "%d", &ex.Unroll)
 	}
 	st := NewState()
-	params := map[string]cval{}
-	var fargs []Value
-	for _, prm := range fn.Params {
-		pv := ex.paramValue(st, prm.Name(), prm.Type())
-		fargs = append(fargs, pv)
-		params[prm.Name()] = cval{V: pv, T: prm.Type()}
-	}
-	var bind []Value
-	for _, fv := range fn.FreeVars {
-		// free variables of closures under contract: symbolic cells
-		el := fv.Type().(*types.Pointer).Elem()
-		pv := ex.paramValue(st, fv.Name(), el)
-		cell := ex.newCell(st, pv)
-		bind = append(bind, &PtrV{Cell: cell})
-		params[fv.Name()] = cval{V: pv, T: el}
-	}
+	fargs, bind, params := ex.rootArgs(st, fn)
 	// loop invariants
 	ex.LoopInv = v.loopContracts(fn, fc)
 	ex.loopEnv = func(st *State) *CEnv { return v.newEnv(ex, fn, fc, st, params) }
